@@ -54,8 +54,15 @@ class WorkerRun:
         self.last_check = now
         try:
             m = os.stat(self.out + ".cur").st_mtime
+            self.seen_cur = True
         except OSError:
             m = self.t0
+            if getattr(self, "seen_cur", False):
+                # the worker removes the file when its job is done: what follows is the test
+                # binary's own exit (slow in a race-detector build with many reports), not a plan
+                if not hasattr(self, "gone_at"):
+                    self.gone_at = now
+                m = now if now - self.gone_at < 300 else self.gone_at   # five minutes to exit
         limit = self.stall_s
         try:
             # a machine that is busy with other work starves the workers: be patient
